@@ -40,7 +40,7 @@ pub fn all() -> Vec<PropDef> {
         PropDef {
             id: "C01",
             level: "fault_enumeration",
-            rule: "the real roughenough-client binary with a pinned key (hex or base64) runs against a UDP mock that returns forgeries of honest reference responses built for the client's actual request(s): fixed table of 12 components x 5 edit kinds + structural forgeries (PATH add/remove/swap, other index, re-signed by a different long-term key, whole other key, delegation window below/above, cross-context certificate, cross-protocol shapes, cross-request splices, replays from earlier processes, truncation/extension) x 2 versions x 2 key formats; thorough: every byte offset and ~675 truncation lengths; plus proptest plans (1..=64 requests per run, batch 1..=64, any index, midpoints epoch..9999). Oracle = lenient reference verifier on the delivered bytes: first non-authentic response k => exit != 0 and at most k time lines; all nonces ever seen pairwise distinct. Non-trivial = delivered response that still parses but is unauthentic; distinct by (version, key format, forgery kind, bytes)",
+            rule: "the real roughenough-client binary with a pinned key (hex or base64) runs against a UDP mock that returns forgeries of honest reference responses built for the client's actual request(s): fixed table of 12 components x 5 edit kinds + structural forgeries (PATH add/remove/swap, other index, re-signed by a different long-term key, whole other key, delegation window below/above, cross-context certificate, cross-protocol shapes, cross-request splices, replays from earlier processes, truncation/extension) x 2 versions x 2 key formats; thorough: every byte offset and ~675 truncation lengths; plus proptest plans (1..=64 requests per run, batch 1..=64, any index, midpoints epoch..9999). Oracle = lenient reference verifier on the delivered bytes: first non-authentic response k => exit != 0 and at most k time lines; all nonces ever seen pairwise distinct. Non-trivial = delivered response that still parses but is unauthentic; distinct by (version, key format, forgery kind, bytes). Later additions: client run without -z under zones with daylight saving (midpoints on fold instants), options -d/-o/-O, -k values that are no public key (nothing is authentic under them), forgeries signed as the other protocol would, neutral-element certificate signature, empty delegation windows, whole runs on one request's response",
             assumptions: &["lenient verifier (refproto.rs) is authentic-biased: anything arguably authentic imposes no obligation", "client timeouts / spawn failures are harness faults (exit 2), never violations", "an attacker cannot forge Ed25519 signatures (forgeries are limited to what the mock can compute with its own keys and the genuine online key it legitimately holds)"],
             shards: s16,
             timeout_s: t_std,
@@ -50,7 +50,7 @@ pub fn all() -> Vec<PropDef> {
         PropDef {
             id: "C03",
             level: "exploration",
-            rule: "the real client binary runs against two honest peers: the reference responder (own keys, generated midpoints from the epoch to 9999-12-31) and the real in-process Server behind a relay that places the client's request at a chosen index of a real batch; grid version x key option (none/hex/base64) x peer x batch size x position (path depth 0..=6) plus proptest plans (1..=64 requests per run, output modes plain/-v/-j/default format). Oracle = client's requests are standard, exit 0, printed (secs, nanos) equal the signed MIDP converted from the protocol's unit (civil date compared independently for the default format), verified flag iff a key was given; only responses the strict verifier accepts count. Non-trivial = accepted response at index >= 1 or from the reference peer with a generated midpoint; distinct by plan",
+            rule: "the real client binary runs against two honest peers: the reference responder (own keys, generated midpoints from the epoch to 9999-12-31) and the real in-process Server behind a relay that places the client's request at a chosen index of a real batch; grid version x key option (none/hex/base64) x peer x batch size x position (path depth 0..=6) plus proptest plans (1..=64 requests per run, output modes plain/-v/-j/default format). Oracle = client's requests are standard, exit 0, printed (secs, nanos) equal the signed MIDP converted from the protocol's unit (civil date compared independently for the default format), verified flag iff a key was given; only responses the strict verifier accepts count. Non-trivial = accepted response at index >= 1 or from the reference peer with a generated midpoint; distinct by plan. Later additions: online keys rotating per reply, other honest servers' VERS lists, midpoints that do not increase over a run, bounded delegation windows, replies from another source address than asked, options -d/-o/-O, zones with repeated/skipped hours",
             assumptions: &["reference responder output is asserted to pass the strict verifier before it counts", "real-server replies that fail strict verification are C02's business (case inconclusive here)"],
             shards: s16,
             timeout_s: t_std,
@@ -60,7 +60,7 @@ pub fn all() -> Vec<PropDef> {
         PropDef {
             id: "C05",
             level: "exploration",
-            rule: "proptest API messages (subsets of the 18 tags, aligned values up to 64 KiB), bounded-exhaustive word strings over a 16-word alphabet, structured mutants of valid encodings; oracle = independent reference codec (accept iff, identical content, canonical re-encoding, framing). Non-trivial = accepted message with >= 3 fields (offset table >= 2 entries) or rejected input with count >= 1 and >= 8 bytes; distinct by byte string",
+            rule: "proptest API messages (subsets of the 18 tags, aligned values up to 64 KiB), bounded-exhaustive word strings over a 16-word alphabet, structured mutants of valid encodings; oracle = independent reference codec (accept iff, identical content, canonical re-encoding, framing). Non-trivial = accepted message with >= 3 fields (offset table >= 2 entries) or rejected input with count >= 1 and >= 8 bytes; distinct by byte string. Later additions: API call sequences, exact encoded sizes around 64 KiB and beyond, byte-granular lengths (word strings plus/minus 1..=3 bytes), logging on in every second worker process",
             assumptions: &["reference codec /verif/harness/src/refcodec.rs written from the protocol texts is correct", "zero-field messages with trailing bytes are accepted by the reference too (property restricts canonical re-encoding to non-empty messages)"],
             shards: s16,
             timeout_s: t_std,
@@ -70,7 +70,7 @@ pub fn all() -> Vec<PropDef> {
         PropDef {
             id: "C06",
             level: "exploration",
-            rule: "same generators as C05 plus random strings 0..=65536 bytes, count/offset arithmetic mutants and nested CERT/DELE/SREP payloads (valid, random, truncated, three deep); oracle = no unwind from from_bytes, values concatenated == input after header, Display returns. Non-trivial = accepted message with an undecodable nested value, or rejected input with count >= 2; distinct by byte string",
+            rule: "same generators as C05 plus random strings 0..=65536 bytes, count/offset arithmetic mutants and nested CERT/DELE/SREP payloads (valid, random, truncated, three deep); oracle = no unwind from from_bytes, values concatenated == input after header, Display returns. Non-trivial = accepted message with an undecodable nested value, or rejected input with count >= 2; distinct by byte string. Later additions: exact-size messages around 64 KiB, short word strings and mutants with logging at Trace, deep nesting in a child process",
             assumptions: &["catch_unwind observes every panic (panic=unwind build)", "out-of-bounds reads would panic in safe Rust; the libFuzzer twin adds ASan"],
             shards: s16,
             timeout_s: t_std,
@@ -80,7 +80,7 @@ pub fn all() -> Vec<PropDef> {
         PropDef {
             id: "C04",
             level: "exploration",
-            rule: "exhaustive: every leaf count 1..=255 x every position x both profiles (completeness, own verifier + independent sha2 climb with inferred node width); ordered size pairs on one reused tree vs fresh trees; binding negatives (other leaf, other index, element flipped/removed/added) on a grid and on proptest-generated leaf sets (empty, 1-byte, equal, up to 1500 bytes) and reuse histories of 2..=8 batches. Non-trivial = n >= 3 with an odd level (zero padding in play), a binding case, or a batch following a larger batch; distinct by (profile, leaves/sizes)",
+            rule: "exhaustive: every leaf count 1..=255 x every position x both profiles (completeness, own verifier + independent sha2 climb with inferred node width); ordered size pairs on one reused tree vs fresh trees; binding negatives (other leaf, other index, element flipped/removed/added) on a grid and on proptest-generated leaf sets (empty, 1-byte, equal, up to 1500 bytes) and reuse histories of 2..=8 batches. Non-trivial = n >= 3 with an odd level (zero padding in play), a binding case, or a batch following a larger batch; distinct by (profile, leaves/sizes). Later additions: idle resets around 8/16-bit counter wrap points, six orders of asking for paths, partial path elements, leaves sharing a 64-byte prefix, logging switched on in every second worker process",
             assumptions: &["SHA-512 collision resistance (binding negatives)", "independent climb in refcrypto.rs (sha2) follows the protocol texts: leaf tweak 0x00, node tweak 0x01, left/right by index bit"],
             shards: s16,
             timeout_s: t_std,
@@ -90,7 +90,7 @@ pub fn all() -> Vec<PropDef> {
         PropDef {
             id: "C13",
             level: "exploration",
-            rule: "proptest histories of 1..=32 messages per signer, each 0..=4096 bytes in 0..=16 chunks (incl. empty chunks) over generated/boundary seeds; oracle = ed25519-dalek one-shot signature == ring signature of the concatenation; verifier vs direct dalek verification on honest triples and on every single-bit corruption of signature (512) and key (256), message bits, wrong signature lengths, another key. Non-trivial = history with >= 2 messages of which one has >= 2 chunks, or any corrupted triple; distinct by content",
+            rule: "proptest histories of 1..=32 messages per signer, each 0..=4096 bytes in 0..=16 chunks (incl. empty chunks) over generated/boundary seeds; oracle = ed25519-dalek one-shot signature == ring signature of the concatenation; verifier vs direct dalek verification on honest triples and on every single-bit corruption of signature (512) and key (256), message bits, wrong signature lengths, another key. Non-trivial = history with >= 2 messages of which one has >= 2 chunks, or any corrupted triple; distinct by content. Later additions: degenerate signatures under undecodable keys, S+L, several signer/verifier objects interleaved (multi-object), lives of 128..515 messages with large many-chunk messages around counter wrap points, logging on in every second worker process",
             assumptions: &["ed25519-dalek one-shot sign/verify and ring are correct RFC 8032 implementations (they are cross-checked against each other on every case)"],
             shards: s16,
             timeout_s: t_std,
@@ -100,7 +100,7 @@ pub fn all() -> Vec<PropDef> {
         PropDef {
             id: "C14",
             level: "fault_enumeration",
-            rule: "proptest (plaintext 32..=64 bytes, wrapped-key length 16..=1024) blobs from an authenticating table KMS; per blob: round trip, 16-byte leak windows of seed and DEK, every bit of every byte (or a stride + all region borders when sampled), byte+1, pseudo-random byte, every truncation length, extensions 1..=16, provider faults (error on either call, wrong key, key lengths 0/16/31/33/64); oracle = Ok(seed) for the untouched blob and Err for everything else, never a panic. Non-trivial = every blob shape (all carry tamper cases in the length fields and wrapped key); distinct by (plaintext length, wrapped length, enumeration mode)",
+            rule: "proptest (plaintext 32..=64 bytes, wrapped-key length 16..=1024) blobs from an authenticating table KMS; per blob: round trip, 16-byte leak windows of seed and DEK, every bit of every byte (or a stride + all region borders when sampled), byte+1, pseudo-random byte, every truncation length, extensions 1..=16, provider faults (error on either call, wrong key, key lengths 0/16/31/33/64); oracle = Ok(seed) for the untouched blob and Err for everything else, never a panic. Non-trivial = every blob shape (all carry tamper cases in the length fields and wrapped key); distinct by (plaintext length, wrapped length, enumeration mode). Later additions: decrypt-call sequences, text-like plaintexts, extreme values in header and length fields, logging on in every second worker process",
             assumptions: &["the harness KMS authenticates every wrapped byte (as AWS/GCP KMS do); a provider that ignores trailing bytes of the wrapped key is outside the property", "AES-256-GCM forgery is infeasible"],
             shards: s16,
             timeout_s: t_std,
@@ -110,7 +110,7 @@ pub fn all() -> Vec<PropDef> {
         PropDef {
             id: "C02",
             level: "exploration",
-            rule: "proptest scenarios: batch_size 1..=64, 1..=6 consecutive steps of 1..=130 datagrams (standard classic/IETF requests of 1024..=1500 bytes, with/without SRV, a few invalid ones) on one long-lived in-process Server, fault 0 and 1..=50; grid batch_size x burst size; oracle = strict reference verifier (own codec, sha2 Merkle climb with the protocol's node width, ring Ed25519) matched one-to-one per socket, batch reconstruction from identical SREP bytes (distinct INDX < m, PATH = ceil(log2 m) nodes), fault mode: verdict for every reply, no half-valid reply, failing share within 6 sigma of p over >= 2400 replies. Non-trivial = verified reply from a batch with m >= 2 (non-empty path); distinct by (protocol, m, index, step class, SREP)",
+            rule: "proptest scenarios: batch_size 1..=64, 1..=6 consecutive steps of 1..=130 datagrams (standard classic/IETF requests of 1024..=1500 bytes, with/without SRV, a few invalid ones) on one long-lived in-process Server, fault 0 and 1..=50; grid batch_size x burst size; oracle = strict reference verifier (own codec, sha2 Merkle climb with the protocol's node width, ring Ed25519) matched one-to-one per socket, batch reconstruction from identical SREP bytes (distinct INDX < m, PATH = ceil(log2 m) nodes), fault mode: verdict for every reply, no half-valid reply, failing share within 6 sigma of p over >= 2400 replies. Non-trivial = verified reply from a batch with m >= 2 (non-empty path); distinct by (protocol, m, index, step class, SREP). Later additions: wrong-nonce-length and every other datagram family in the mix, requests from UDP source port 0 (reply cannot be sent) and from well-known source ports, short status intervals with idling, reply count under faults, fault shares at batch sizes 1..=4, and a real-binary part with 4..16 workers signing concurrently",
             assumptions: &["loopback UDP preserves per-socket order and does not drop below the raised receive-buffer limits", "refproto.rs strict verifier encodes the Google and draft-13 texts (leaf = nonce / whole request packet, node width 64 / 32)", "online keys, Grease PRNG and kernel timing are not pinned; verdicts do not depend on them except the 6-sigma statistic (false-alarm probability ~2e-9 per run)"],
             shards: s16,
             timeout_s: t_std,
@@ -120,7 +120,7 @@ pub fn all() -> Vec<PropDef> {
         PropDef {
             id: "C07",
             level: "exploration",
-            rule: "proptest scenarios of datagrams 0..=65507 bytes (standard requests, every aligned nonce length, truncated/extended by 1..=8 bytes, resized, field mutants: NONC removed/renamed, tag order, offsets, frame length +-k, magic, VER lists, SRV, header words/bits, junk, empty) in batches up to 70 at batch_size 1..=64, plus a grid of nonce lengths x protocol x batch depth, well-formed requests of every aligned length around both size limits, and codec-level crafted requests whose header words sit at buffer-size boundaries; oracle per socket after the sentinel: replies only attributable (protocol + nonce echo) to well-formed 1024..=1500-byte requests of that socket, and len(reply) <= len(request) under the worst-case pairing. Non-trivial = well-formed datagram within 8 bytes of a size limit, in-range non-request, or answered request with non-standard nonce; distinct by bytes",
+            rule: "proptest scenarios of datagrams 0..=65507 bytes (standard requests, every aligned nonce length, truncated/extended by 1..=8 bytes, resized, field mutants: NONC removed/renamed, tag order, offsets, frame length +-k, magic, VER lists, SRV, header words/bits, junk, empty) in batches up to 70 at batch_size 1..=64, plus a grid of nonce lengths x protocol x batch depth, well-formed requests of every aligned length around both size limits, and codec-level crafted requests whose header words sit at buffer-size boundaries; oracle per socket after the sentinel: replies only attributable (protocol + nonce echo) to well-formed 1024..=1500-byte requests of that socket, and len(reply) <= len(request) under the worst-case pairing. Non-trivial = well-formed datagram within 8 bytes of a size limit, in-range non-request, or answered request with non-standard nonce; distinct by bytes. Later additions: tag-order grid (required tags + every pair of known tags, ascending and exchanged), frame-length and size grids, scenarios with fault injection (count/size accounting), source port 0 and well-known source ports",
             assumptions: &["classifier in refproto.rs is generous (only-if direction only): a server stricter than it is never flagged", "no-reply is asserted only after the sentinel's reply proved the datagram was consumed"],
             shards: s16,
             timeout_s: t_std,
@@ -130,7 +130,7 @@ pub fn all() -> Vec<PropDef> {
         PropDef {
             id: "C08",
             level: "exploration",
-            rule: "proptest scenarios x log level (one level per worker process: Off, Error, Warn, Info, Debug, Trace with a capturing logger that formats every record) x fault 0/1..=50 x batch_size 1..=64 x client_stats; datagram families of C07 plus empty datagrams, 65507-byte datagrams, empty and oversized nonces, repeated datagrams; oracle = process_events never unwinds, the sentinel is answered (never wedged) and its reply passes the strict verifier (fault 0) or a valid sentinel reply arrives within 40 attempts (faults on). Non-trivial = scenario with a near-valid mutant at level >= Debug; distinct by (level, datagrams)",
+            rule: "proptest scenarios x log level (one level per worker process: Off, Error, Warn, Info, Debug, Trace with a capturing logger that formats every record) x fault 0/1..=50 x batch_size 1..=64 x client_stats; datagram families of C07 plus empty datagrams, 65507-byte datagrams, empty and oversized nonces, repeated datagrams; oracle = process_events never unwinds, the sentinel is answered (never wedged) and its reply passes the strict verifier (fault 0) or a valid sentinel reply arrives within 40 attempts (faults on). Non-trivial = scenario with a near-valid mutant at level >= Debug; distinct by (level, datagrams). Later additions: Header/Crafted/TagOrder families, source port 0, well-known source ports",
             assumptions: &["the harness runs process_events on its (named) main thread; a panic counts only when it unwinds out of process_events", "socket-level errors (ICMP, ENOBUFS) are not injected"],
             shards: |_| 18,
             timeout_s: t_std,
@@ -140,7 +140,7 @@ pub fn all() -> Vec<PropDef> {
         PropDef {
             id: "C09",
             level: "exploration",
-            rule: "proptest histories: 2..=48 client sockets, 1..=4 steps of 1..=130 sends (standard classic / standard IETF / clearly invalid datagrams; several requests per socket; nonces shared between sockets from a 6-nonce pool) at batch_size 1..=64; oracle per socket and step: #standard <= #replies <= #answerable, one-to-one matching of replies to the socket's own requests under the strict verifier in the request's protocol, every standard request matched, exactly one sentinel reply. Non-trivial = step mixing classic and IETF across >= 2 sockets, or burst > batch_size; distinct by (batch_size, burst, sends)",
+            rule: "proptest histories: 2..=48 client sockets, 1..=4 steps of 1..=130 sends (standard classic / standard IETF / clearly invalid datagrams; several requests per socket; nonces shared between sockets from a 6-nonce pool) at batch_size 1..=64; oracle per socket and step: #standard <= #replies <= #answerable, one-to-one matching of replies to the socket's own requests under the strict verifier in the request's protocol, every standard request matched, exactly one sentinel reply. Non-trivial = step mixing classic and IETF across >= 2 sockets, or burst > batch_size; distinct by (batch_size, burst, sends). Later additions: IPv6 loopback, source port 0, client sockets on well-known source ports, pending health connections (3 or 70) while a step's datagrams arrive, short status intervals with idling",
             assumptions: &["requests that are well-formed but non-standard are never generated here, so 'must be answered' is only asserted where every reading of the protocol agrees", "loopback does not drop (receive buffers raised)"],
             shards: s16,
             timeout_s: t_std,
@@ -150,7 +150,7 @@ pub fn all() -> Vec<PropDef> {
         PropDef {
             id: "C10",
             level: "exploration",
-            rule: "proptest seeds (arbitrary, all-zero, all-0xff, RFC 8032 vectors, printable) x 1..=6 restarts x make_cert sequences of 1..=8 in generated protocol order (library), and 1..=3 in-process server restarts serving generated traffic of both protocols; oracle = ring-derived public key, sha2 SRV, Display, CERT shape {SIG, DELE{PUBK,MINT,MAXT}}, ring verification under the protocol's delegation context and NON-verification under the other's, MINT <= MIDP <= MAXT, delegated key = online key. Non-trivial = >= 2 restarts with certificates of both protocols; distinct by seed",
+            rule: "proptest seeds (arbitrary, all-zero, all-0xff, RFC 8032 vectors, printable) x 1..=6 restarts x make_cert sequences of 1..=8 in generated protocol order (library), and 1..=3 in-process server restarts serving generated traffic of both protocols; oracle = ring-derived public key, sha2 SRV, Display, CERT shape {SIG, DELE{PUBK,MINT,MAXT}}, ring verification under the protocol's delegation context and NON-verification under the other's, MINT <= MIDP <= MAXT, delegated key = online key. Non-trivial = >= 2 restarts with certificates of both protocols; distinct by seed. Later additions: same online key certified for both protocols, midpoints signed up to 600 s after issue, in-process and real servers under far time zones, unsendable replies before the examined traffic",
             assumptions: &["ring's Ed25519 key derivation and verification are correct RFC 8032", "worker threads of the real binary construct their Server through the same code path (covered again at process level by C15/C18)"],
             shards: s16,
             timeout_s: t_std,
@@ -160,7 +160,7 @@ pub fn all() -> Vec<PropDef> {
         PropDef {
             id: "C11",
             level: "exploration",
-            rule: "proptest clock values (secs 0..=2^34 and boundary dates up to 9999-12-31, nanos incl. 0, 1, 999, 1000, 999999, 999999999) x both versions through OnlineKey::make_srep, decoded with the reference codec: 0 <= clock - MIDP < one unit (microsecond / second), RADI = 5 s in that unit, signature valid; live: replies of in-process servers (young and aged > 1 s, incl. byte-identical batches repeated after > 1 s) bracketed by the harness clock with 250 ms slack; real binary under non-UTC time zones; real binary under bursts from 16..64 concurrent clients with microsecond midpoints inside [request sent, reply received] (2 ms tolerance, clock-step guard). Non-trivial = pure case with nanos != 0, or live reply from a server older than 1 s; distinct by (secs, nanos, version) / SREP",
+            rule: "proptest clock values (secs 0..=2^34 and boundary dates up to 9999-12-31, nanos incl. 0, 1, 999, 1000, 999999, 999999999) x both versions through OnlineKey::make_srep, decoded with the reference codec: 0 <= clock - MIDP < one unit (microsecond / second), RADI = 5 s in that unit, signature valid; live: replies of in-process servers (young and aged > 1 s, incl. byte-identical batches repeated after > 1 s) bracketed by the harness clock with 250 ms slack; real binary under non-UTC time zones; real binary under bursts from 16..64 concurrent clients with microsecond midpoints inside [request sent, reply received] (2 ms tolerance, clock-step guard). Non-trivial = pure case with nanos != 0, or live reply from a server older than 1 s; distinct by (secs, nanos, version) / SREP. Later additions: clock sequences on one key, fault-valid-time (replies that verify under fault injection must tell the time), clock-step-real-binary (server under an LD_PRELOAD clock shim, offsets stepped while it runs)",
             assumptions: &["'expressed in whole units' is read as truncation: the largest whole unit not exceeding the clock reading (a midpoint later than the reading it expresses is flagged)", "CLOCK_REALTIME is not stepped by more than 250 ms during a live case"],
             shards: s16,
             timeout_s: t_std,
@@ -170,7 +170,7 @@ pub fn all() -> Vec<PropDef> {
         PropDef {
             id: "C12",
             level: "exploration",
-            rule: "exhaustive table: every VER list of length 0..=6 over {draft-13, 0, 1, 0x8000000b, 0x8000000d} and 'VER absent', each x SRV absent/correct/wrong; for [draft-13]: all 256 single-bit SRV corruptions, SRV lengths {0,4,28,36,64}, another server's SRV; requests otherwise standard, 48 per batch, one per socket; plus proptest sequences of 2..=24 requests on one worker in which each list extends / truncates / repeats the previous one (state carried between requests); oracle = truth table of the property + strict verification of every reply (SREP.VER = draft-13, sorted VERS containing it). Non-trivial = list of length >= 2 with draft-13 at position >= 2, or any SRV corruption; distinct by (list, SRV)",
+            rule: "exhaustive table: every VER list of length 0..=6 over {draft-13, 0, 1, 0x8000000b, 0x8000000d} and 'VER absent', each x SRV absent/correct/wrong; for [draft-13]: all 256 single-bit SRV corruptions, SRV lengths {0,4,28,36,64}, another server's SRV; requests otherwise standard, 48 per batch, one per socket; plus proptest sequences of 2..=24 requests on one worker in which each list extends / truncates / repeats the previous one (state carried between requests); oracle = truth table of the property + strict verification of every reply (SREP.VER = draft-13, sorted VERS containing it). Non-trivial = list of length >= 2 with draft-13 at position >= 2, or any SRV corruption; distinct by (list, SRV). Later additions: a server identity per chunk, sequences of related lists, leading-SIG and zero-tag shapes, version numbers whose bytes spell draft-13 across an entry boundary, an unsendable request in front of every third chunk",
             assumptions: &["draft-13 at list position 5 or 6 may be answered or not (if answered the reply must verify)"],
             shards: s16,
             timeout_s: t_std,
@@ -180,7 +180,7 @@ pub fn all() -> Vec<PropDef> {
         PropDef {
             id: "C15",
             level: "exploration",
-            rule: "the real roughenough-server binary is started from generated configurations: the repository's example.cfg (ports rewritten), a pairwise-covering set over {workers>1, health port, client_stats, file/ENV} with batch_size {1,2,63,64}, fault {0,1,50}, status_interval {1,10,600}, defaults left unwritten, an all-decimal-digit seed, then proptest draws over num_workers 1..=16 x the same options; oracle within 10 s: N distinct worker-i threads in /proc, 64*N requests from distinct sockets each answered exactly once (strictly verified when fault = 0), exactly N distinct delegated keys, 2*N health connections that are reset or closed unread, a burst of 2*N+1 simultaneous ones, then 3*N sequential health connections each reading the exact HTTP 200 text then EOF while UDP keeps being answered, workers still alive after 1 s, no panic text. Non-trivial = configuration with >= 2 workers, a health port or client_stats; distinct by configuration tuple",
+            rule: "the real roughenough-server binary is started from generated configurations: the repository's example.cfg (ports rewritten), a pairwise-covering set over {workers>1, health port, client_stats, file/ENV} with batch_size {1,2,63,64}, fault {0,1,50}, status_interval {1,10,600}, defaults left unwritten, an all-decimal-digit seed, then proptest draws over num_workers 1..=16 x the same options; oracle within 10 s: N distinct worker-i threads in /proc, 64*N requests from distinct sockets each answered exactly once (strictly verified when fault = 0), exactly N distinct delegated keys, 2*N health connections that are reset or closed unread, a burst of 2*N+1 simultaneous ones, then 3*N sequential health connections each reading the exact HTTP 200 text then EOF while UDP keeps being answered, workers still alive after 1 s, no panic text. Non-trivial = configuration with >= 2 workers, a health port or client_stats; distinct by configuration tuple. Later additions: protocol-mixed waves, one-client bursts with non-requests (free-running and stopped/continued, with health connections queued behind them), reset/unread/silent/half-sent/70-at-once health clients, health endurance under a lowered descriptor limit, health port = UDP port, drops at the server socket although the burst fits a default receive queue are violations",
             assumptions: &["ports are leased exclusively (bound once without SO_REUSE*, lock file); a lost port race is exit 2", "SO_REUSEPORT hashing spreads 64*N distinct source ports over all N workers (miss probability < 1e-12)"],
             shards: s16,
             timeout_s: |t| t.pick(400, 3600),
@@ -190,7 +190,7 @@ pub fn all() -> Vec<PropDef> {
         PropDef {
             id: "C16",
             level: "exploration",
-            rule: "cfgprobe process (the product's make_config + is_valid_config) on configurations written as a YAML file or as ROUGHENOUGH_<KEY> environment variables: boundary grid (min-1, min, typical, max, max+1, 255, 256, 300, 65535, 65536, 70000, -1, -200, 2^31, 2^32+k) for port, batch_size, fault_percentage, num_workers, health_check_port; status_interval within 1..=65535; client_stats spellings; seeds of length 62/63/64/65/66 and non-hex; missing required keys; unknown key; every probe also with client_stats on; plus proptest integers; behavioural twin: a server built in-process from the loaded file/ENV configuration must show the written fault_percentage (failing share within 6 sigma over 2400 replies) and batch_size (largest batch under 130-request bursts); oracle = model of the documentation: in range => accepted with exactly the written value, otherwise refused (error, invalid or panic), never accepted with a different value. Non-trivial = value outside the type width of the field it lands in (wrap candidate) or negative; distinct by probe",
+            rule: "cfgprobe process (the product's make_config + is_valid_config) on configurations written as a YAML file or as ROUGHENOUGH_<KEY> environment variables: boundary grid (min-1, min, typical, max, max+1, 255, 256, 300, 65535, 65536, 70000, -1, -200, 2^31, 2^32+k) for port, batch_size, fault_percentage, num_workers, health_check_port; status_interval within 1..=65535; client_stats spellings; seeds of length 62/63/64/65/66 and non-hex; missing required keys; unknown key; every probe also with client_stats on; plus proptest integers; behavioural twin: a server built in-process from the loaded file/ENV configuration must show the written fault_percentage (failing share within 6 sigma over 2400 replies) and batch_size (largest batch under 130-request bursts); oracle = model of the documentation: in range => accepted with exactly the written value, otherwise refused (error, invalid or panic), never accepted with a different value. Non-trivial = value outside the type width of the field it lands in (wrap candidate) or negative; distinct by probe. Later additions: behavioural twins (fault share, batch size, health port incl. equal to the UDP port and occupied by another program), null/empty values, file probes padded with ~5 KiB of comments",
             assumptions: &["ranges come from README and ServerConfig rustdoc as quoted in the property; values the documents do not classify (health port 0, status_interval 0 or > 65535) are not generated", "environment variable names are ROUGHENOUGH_ + upper-cased key as in the README table"],
             shards: s16,
             timeout_s: t_std,
@@ -200,7 +200,7 @@ pub fn all() -> Vec<PropDef> {
         PropDef {
             id: "C17",
             level: "exploration",
-            rule: "bounded-exhaustive histories of the 8 recording operations x 4 addresses (two v4, one v6, one IPv4-mapped v6) x limits 1..=3 up to length 4 (quick) / 5 (thorough); random histories up to 10,000 ops with byte counts {0,1,7,1500}; splits across 1..=4 worker recorders with generated snapshot points merged by a real Reporter; traffic mixes served by an in-process Server with client_stats off/on; oracle = exactly-one-counter step invariant, tracked addresses <= limit, Aggregated == PerClient totals while no overflow, merged per-address sums == sums of recorded events, recorded totals == datagrams and replies seen on the sockets. Non-trivial = history that overflowed, split with >= 2 workers and >= 2 snapshots, or a traffic case; distinct by content",
+            rule: "bounded-exhaustive histories of the 8 recording operations x 4 addresses (two v4, one v6, one IPv4-mapped v6) x limits 1..=3 up to length 4 (quick) / 5 (thorough); random histories up to 10,000 ops with byte counts {0,1,7,1500}; splits across 1..=4 worker recorders with generated snapshot points merged by a real Reporter; traffic mixes served by an in-process Server with client_stats off/on; oracle = exactly-one-counter step invariant, tracked addresses <= limit, Aggregated == PerClient totals while no overflow, merged per-address sums == sums of recorded events, recorded totals == datagrams and replies seen on the sockets. Non-trivial = history that overflowed, split with >= 2 workers and >= 2 snapshots, or a traffic case; distinct by content. Later additions: clears, CSV decode, traffic with health checks, faults, failed sends (source port 0), idling across statistics timer periods, 300..5000 client addresses in one period with queue capacity 2/4",
             assumptions: &["hooks: PerClientStats::verif_with_limit, Server::verif_stats, Reporter::verif_client_stats (feature verif)", "the snapshot procedure replicated in the split check is the one in Server::send_client_stats (iter -> force_push -> clear)"],
             shards: s16,
             timeout_s: t_std,
@@ -210,7 +210,7 @@ pub fn all() -> Vec<PropDef> {
         PropDef {
             id: "C18",
             level: "exploration",
-            rule: "real multi-worker server (num_workers in {1,2,4,8,16}, one value per worker process of the check) under seeded rounds of 1..=64 concurrent closed-loop client threads (classic / IETF / per-client / per-request mix, 20..=300 requests each, think time 0..=2 ms, nonces shared across clients, client_stats off/on, batch_size {1,2,8,64}); oracle per request: exactly one reply, strictly verified for the outstanding request under the single long-term key, no stray datagram; microsecond midpoints inside [request sent, reply received] on the shared host clock (2 ms tolerance, >= 3 outliers, clock-step guard); all worker threads alive and no panic text after every round; an unanswered request counts only when the kernel reports zero drops. Non-trivial = round with >= 2 workers, >= 2 clients and replies from >= 2 distinct delegated keys (the kernel really spread the load); distinct by round plan. Schedules are sampled, not controlled",
+            rule: "real multi-worker server (num_workers in {1,2,4,8,16}, one value per worker process of the check) under seeded rounds of 1..=64 concurrent closed-loop client threads (classic / IETF / per-client / per-request mix, 20..=300 requests each, think time 0..=2 ms, nonces shared across clients, client_stats off/on, batch_size {1,2,8,64}); oracle per request: exactly one reply, strictly verified for the outstanding request under the single long-term key, no stray datagram; microsecond midpoints inside [request sent, reply received] on the shared host clock (2 ms tolerance, >= 3 outliers, clock-step guard); all worker threads alive and no panic text after every round; an unanswered request counts only when the kernel reports zero drops. Non-trivial = round with >= 2 workers, >= 2 clients and replies from >= 2 distinct delegated keys (the kernel really spread the load); distinct by round plan. Schedules are sampled, not controlled. Later additions: full-house rounds, retransmitting clients, stop/continue of the server mid-round, unanswerable noise, midpoint inside [sent, received], drops although everything outstanding fits a default receive queue are violations",
             assumptions: &["OS scheduling and SO_REUSEPORT distribution are sampled (seeded plans, many rounds), not enumerated", "closed loop keeps <= 64 datagrams in flight, below the receive buffer"],
             shards: |t| t.pick(10, 15),
             timeout_s: |t| t.pick(400, 3600),
@@ -220,7 +220,7 @@ pub fn all() -> Vec<PropDef> {
         PropDef {
             id: "C19",
             level: "exploration",
-            rule: "real server (workers {1,4,16}, client_stats off/on) receives SIGINT or SIGTERM after a swept delay (0..=300 ms, around 100 ms and 1 s; idle periods up to 12 s since start-up or since the last request) while idle, under k closed-loop clients, or under an open-loop flood (valid / invalid / mixed) that keeps the receive queue non-empty; fixed grid + proptest plans; oracle: exit status 0 within 5 s, no panic text, every reply received before exit strictly valid; if the deadline passes the load is stopped to tell 'wedged by load' from 'never exits'. Non-trivial = signal delivered while requests were in flight (flood, or a reply within 5 ms of the signal); distinct by (workers, stats, signal, load, delay bucket)",
+            rule: "real server (workers {1,4,16}, client_stats off/on) receives SIGINT or SIGTERM after a swept delay (0..=300 ms, around 100 ms and 1 s; idle periods up to 12 s since start-up or since the last request) while idle, under k closed-loop clients, or under an open-loop flood (valid / invalid / mixed) that keeps the receive queue non-empty; fixed grid + proptest plans; oracle: exit status 0 within 5 s, no panic text, every reply received before exit strictly valid; if the deadline passes the load is stopped to tell 'wedged by load' from 'never exits'. Non-trivial = signal delivered while requests were in flight (flood, or a reply within 5 ms of the signal); distinct by (workers, stats, signal, load, delay bucket). Later additions: seven flood kinds incl. expensive-to-reject and unsendable-reply floods with host-wide flood slots, signals right after the first response, inherited ignored signals (nohup / background job), second signal within 100 ms, descriptor limit reached with health connections pending",
             assumptions: &["signal delivery instants are sampled by sweeping the delay; the exact interleaving is not controlled", "5 s is >= 4x the designed worst case (100 ms poll + 1 s reporter sleep)"],
             shards: |_| 6,
             timeout_s: |t| t.pick(400, 3600),
@@ -230,7 +230,7 @@ pub fn all() -> Vec<PropDef> {
         PropDef {
             id: "C20",
             level: "exploration",
-            rule: "proptest seeds (incl. printable ASCII) x log level (one per worker process, all six levels) x request mixes (valid, invalid, fault-injected); needles = seed, SHA-512(seed) halves, clamped scalar, each raw / hex lower+upper / base64 std+url with and without padding, every 16-byte raw and 24-char encoded window; haystack = every emitted datagram, every formatted log record, the announced public key; positive control: sentinel nonce prefix found in the Debug log. Real-binary part: stdout+stderr of roughenough-server for file/ENV configurations incl. invalid ones. Non-trivial = run at level >= Debug with valid and invalid datagrams, or a real-binary run; distinct by (seed, level, source)",
+            rule: "proptest seeds (incl. printable ASCII) x log level (one per worker process, all six levels) x request mixes (valid, invalid, fault-injected); needles = seed, SHA-512(seed) halves, clamped scalar, each raw / hex lower+upper / base64 std+url with and without padding, every 16-byte raw and 24-char encoded window; haystack = every emitted datagram, every formatted log record, the announced public key; positive control: sentinel nonce prefix found in the Debug log. Real-binary part: stdout+stderr of roughenough-server for file/ENV configurations incl. invalid ones. Non-trivial = run at level >= Debug with valid and invalid datagrams, or a real-binary run; distinct by (seed, level, source). Later additions: structured seeds, complete spellings as needles in text output, 28 configuration variants incl. digit-only seeds, restart on the same persistence directory with another seed, file source with ROUGHENOUGH_* noise in the environment, short status intervals with idling",
             assumptions: &["a 16-byte window colliding by chance has probability ~2^-128 per position"],
             shards: |_| 18,
             timeout_s: t_std,
